@@ -41,7 +41,8 @@ BASES = {ROOT: None, 'FIFOSignalQueue': ROOT, 'InterleavedFIFOSignalQueue': ROOT
          'BlockedFIFOSignalQueue': 'GroupedFIFOSignalQueue'}
 
 COQTY = {'Z': 'Z', 'bool': 'bool', 'wave': '(list osample)', 'waves': '(list (list osample))', 'src': 'view', 'dref': 'Z',
-         'zlist': '(list Z)', 'info': 'info', 'infos': '(list info)', 'unit': 'unit', 'pair': '(Z * Z)%type', 'entry': 'entry'}
+         'zlist': '(list Z)', 'info': 'info', 'infos': '(list info)', 'unit': 'unit', 'pair': '(Z * Z)%type', 'entry': 'entry',
+         'optZ': '(option Z)'}
 
 # (class, method) -> (pinned signature, parameters, type returned, options)
 #   needs_src: the method works on `self._source` (bound at entry; None there is an error)
@@ -64,9 +65,17 @@ TARGETS = {
     (ROOT, '_pop_buffer'): ('self, samples, decrement', [('samples', 'Z'), ('decrement', 'bool')], 'wave', {}),
     (ROOT, 'pop_buffer'): ('self, samples, decrement=True', [('samples', 'Z'), ('decrement', 'bool')], 'wave',
                            {'fuel': 'param'}),
+    # pause / resume (times are sample numbers relative to the start of the queue: see PINS)
+    (ROOT, '_ends_after'): ('self, info, t', [('info', 'info'), ('t', 'Z')], 'bool', {}),
+    (ROOT, 'rewind_samples'): ('self, t, check=True', [('t', 'Z'), ('check', 'bool')], 'unit', {}),
+    (ROOT, 'cancel'): ('self, t, delay=0', [('t', 'Z'), ('delay', 'Z')], 'unit', {}),
+    (ROOT, 'requeue'): ('self, t', [('t', 'Z')], 'unit', {}),
+    ('InterleavedFIFOSignalQueue', 'requeue'): ('self, t', [('t', 'Z')], 'unit', {}),
+    (ROOT, 'pause'): ('self, t=None', [('t', 'optZ')], 'unit', {}),
+    (ROOT, 'resume'): ('self, t=None', [('t', 'optZ')], 'unit', {}),
 }
 # methods every queue class may override: calls go through a dispatcher on the policy
-VIRTUAL = {'next_key': ([], 'Z'), 'decrement_key': ([('key', 'Z'), ('n', 'Z')], 'bool')}
+VIRTUAL = {'next_key': ([], 'Z'), 'decrement_key': ([('key', 'Z'), ('n', 'Z')], 'bool'), 'requeue': ([('t', 'Z')], 'unit')}
 
 # self.<field> -> (name in TieLib, type, assignable); per class where a subclass reuses a name with another type
 FIELDS = {'_delay_samples': ('delay', 'Z', True), '_ordering': ('ordering', 'zlist', True), '_samples': ('samples', 'Z', True),
@@ -75,10 +84,11 @@ FIELDS = {'_delay_samples': ('delay', 'Z', True), '_ordering': ('ordering', 'zli
           '_group_size': ('group_size', 'Z', False)}
 CLASS_FIELDS = {('BlockedRandomSignalQueue', '_i'): ('iperm', 'zlist', True)}
 DATA_KEYS = {'trials': 'e_trials', 'duration': 'e_dur'}
-LOCAL_LISTS = {('pop_buffer', 'waveforms'): 'waves'}          # `x = []`: what the list will hold
+LOCAL_LISTS = {('pop_buffer', 'waveforms'): 'waves', ('requeue', 'to_requeue'): 'zlist'}          # `x = []`: what the list will hold
 EXC = {'QueueEmptyError': 'EQueueEmpty', 'KeyError': 'EKeyError', 'ValueError': 'EValueError', 'IndexError': 'EIndexError'}
 NOTIFY = {'added': 'ev_added', 'removed': 'ev_removed'}
 INFO_KEYS = {'t0': 'i_t0', 'duration': 'i_dur', 'key': 'i_key', 'decrement': 'i_dec'}     # + 'metadata' (not modelled)
+INFO_TYPES = {'t0': 'Z', 'duration': 'Z', 'key': 'Z', 'decrement': 'bool'}
 
 # (class, method, statement text) -> replacement statement (translated instead) or None (dropped)
 PINS = {
@@ -102,6 +112,21 @@ PINS = {
     ('BlockedRandomSignalQueue', 'next_key', 'i = np.arange(len(self._ordering))'): None,
     ('BlockedRandomSignalQueue', 'next_key', 'self._rng.shuffle(i)'): None,
     ('BlockedRandomSignalQueue', 'next_key', 'self._i = i.tolist()'): 'self._i = _tie_draw_perm(len(self._ordering))',
+    # ---- pause / resume: a time is read as the sample number int(round((t - t0) * fs)) the harness hands the model
+    (ROOT, 'pause', "if int(round((t - self._t0) * self._fs)) > self._samples:\n    raise ValueError(f'Cannot pause at {t:.3f}s, "
+                    "last sample was {self.get_ts():.3f}s.')"): 'if t > self._samples:\n    raise ValueError',
+    (ROOT, 'rewind_samples', 'new_sample = int(round((t - self._t0) * self._fs))'): 'new_sample = t',
+    # the end of a logged trial: start + declared duration, in samples
+    (ROOT, '_ends_after', "end = int(round((info['t0'] + info['duration'] - self._t0) * self._fs))"): "end = info['t0'] + info['duration']",
+    (ROOT, '_ends_after', 'return end > int(round((t - self._t0) * self._fs))'): 'return end > t',
+    (ROOT, 'cancel', 'self._delay_samples = int(round(delay * self._fs))'): 'self._delay_samples = delay',
+    # logging with compound arguments
+    (ROOT, 'requeue', "log.debug('Need to requeue:: %r', dict(Counter(to_requeue)))"): None,
+    (ROOT, 'requeue', "trials = {k: self._data[k]['trials'] for k in self._data.keys()}"): None,
+    (ROOT, 'resume', "log.debug('Resumed queue. Current timestamp is %.3f.', self.get_ts())"): None,
+    # collections.Counter: one trial back per occurrence of the key (grouped by key, first occurrence first)
+    (ROOT, 'requeue', "for key, count in Counter(to_requeue).items():\n    log.debug('Adding %d trials for key %s back to queue', count, key)\n"
+                      "    self._data[key]['trials'] += count"): "for key in to_requeue:\n    self._data[key]['trials'] += 1",
 }
 
 # whole functions / methods whose text (docstrings removed) the reading above relies on
@@ -127,10 +152,9 @@ PINNED_DEFS = {
 }
 # the other methods (separate operations of the model, tied by the differential harness; not called by the targets)
 OTHER_METHODS = {
-    ROOT: {'__init__', 'clone', 'fs', 'get_ts', 'remaining_trials', 'rewind_samples', 'pause', '_ends_after', 'cancel',
-           'requeue', 'resume', 'is_empty', 'set_fs', 'set_t0', '_add_source', 'get_max_duration', 'connect', 'insert',
+    ROOT: {'__init__', 'clone', 'fs', 'get_ts', 'remaining_trials', 'is_empty', 'set_fs', 'set_t0', '_add_source', 'get_max_duration', 'connect', 'insert',
            'append', 'extend', 'count_factories', 'count_trials', 'count_requested_trials', 'get_closest_key', 'get_info'},
-    'InterleavedFIFOSignalQueue': {'requeue', 'count_trials'},
+    'InterleavedFIFOSignalQueue': {'count_trials'},
 }
 
 CMP = {ast.Lt: '<?', ast.LtE: '<=?', ast.Gt: '>?', ast.GtE: '>=?', ast.Eq: '=?'}
@@ -185,7 +209,7 @@ class _Fn:
         if isinstance(e, ast.Constant) and type(e.value) is int:
             return zl(e.value), 'Z'
         if isinstance(e, ast.Name):
-            if e.id not in env or e.id.startswith('@'):
+            if e.id not in env or e.id.startswith('@') or env[e.id] == 'none':
                 self.gap(e, 'unknown name (or a name not assigned on this path)')
             return 'v_' + e.id, env[e.id]
         if _is_self(e, '_source'):
@@ -246,6 +270,11 @@ class _Fn:
 
     def subscript(self, e, env, pre):
         s = e.slice
+        if isinstance(s, ast.Constant) and isinstance(s.value, str) and isinstance(e.value, ast.Name) \
+                and env.get(e.value.id) == 'info':                                # info['t0']: a field of a log entry
+            if s.value not in INFO_KEYS:
+                self.gap(e, 'unknown key of an info dict')
+            return f'({INFO_KEYS[s.value]} v_{e.value.id})', INFO_TYPES[s.value]
         if isinstance(s, ast.Constant) and isinstance(s.value, str):            # d['trials']
             if s.value not in DATA_KEYS:
                 self.gap(e, 'unknown key of a stimulus dict')
@@ -262,6 +291,11 @@ class _Fn:
             if ty == 'entry':
                 return f'({DATA_KEYS[s.value]} {t})', 'Z'
             self.gap(e, f'string key on a {ty}')
+        if isinstance(s, ast.Slice) and ast.unparse(s) == '::-1':              # l[::-1]: reversed copy
+            t, ty = self.expr(e.value, env, pre)
+            if ty not in ('zlist', 'infos'):
+                self.gap(e, f'reversal of a {ty}')
+            return f'(rev {t})', ty
         if isinstance(s, ast.Slice):
             if s.step is not None:
                 self.gap(e, 'stepped slice')
@@ -292,6 +326,15 @@ class _Fn:
                 if ty in ('zlist', 'wave', 'waves'):
                     return f'(zlen {t})', 'Z'
                 self.gap(e, f'len of a {ty}')
+            if f.id == 'all' and len(a) == 1 and isinstance(a[0], ast.GeneratorExp) and len(a[0].generators) == 1:
+                g = a[0].generators[0]                                          # all(c(d) for d in self._data.values())
+                if ast.unparse(g.iter) == 'self._data.values()' and isinstance(g.target, ast.Name) and not g.ifs and not g.is_async:
+                    inner = dict(env)
+                    inner[g.target.id] = 'entry'
+                    p2 = []
+                    c = self.typed(a[0].elt, inner, p2, 'bool')
+                    if not p2:
+                        return f'(forallb (fun v_{g.target.id} => {c}) (f_data self))', 'bool'
             if f.id == '_tie_fresh_source' and len(a) == 1:                     # only reachable through PINS
                 return f'(fresh_source self {self.typed(a[0], env, pre, "dref")})', 'src'
         if u == 'np.zeros' and len(a) == 1 and not e.keywords:
@@ -312,10 +355,17 @@ class _Fn:
 
     def selfcall(self, e, env):
         """self.m(..) of a translated method -> (text, type returned); arguments are total expressions"""
-        if not (isinstance(e, ast.Call) and _is_self(e.func)):
+        sup = isinstance(e, ast.Call) and isinstance(e.func, ast.Attribute) and ast.unparse(e.func.value) == 'super()'
+        if not (isinstance(e, ast.Call) and (_is_self(e.func) or sup)):
             return None
         name = e.func.attr
-        if name in VIRTUAL:
+        if sup:                                             # the method of the base class, whatever the queue's class
+            owner = self.resolve(BASES[self.cls], name, owner=True) if BASES[self.cls] else None
+            if owner is None or (owner, name) not in TARGETS:
+                self.gap(e, 'super() call of a method that is not translated')
+            params, ret = TARGETS[(owner, name)][1:3]
+            target, fn = coqname(owner, name), self.resolve(owner, name)
+        elif name in VIRTUAL:
             params, ret = VIRTUAL[name]
             target, fn = f'g_{name}', self.resolve(self.cls, name)
         else:
@@ -382,6 +432,10 @@ class _Fn:
             if ctx.get('brk') is None:
                 self.gap(s, 'break outside a loop')
             return ctx['brk'](env, ind)
+        if isinstance(s, ast.Continue):
+            if ctx.get('cont') is None:
+                self.gap(s, 'continue outside a for loop')
+            return ctx['cont'](env, ind)
         if isinstance(s, ast.AugAssign) and type(s.op) in (ast.Add, ast.Sub):
             t = s.target
             if isinstance(t, ast.Subscript) and ast.unparse(t.slice) == "'trials'" and isinstance(t.value, ast.Subscript) \
@@ -397,6 +451,32 @@ class _Fn:
         if isinstance(s, ast.Assign) and len(s.targets) == 1:
             return self.assign(s, s.targets[0], rest, env, ctx, ind)
         if isinstance(s, ast.If):
+            c = s.test
+            if isinstance(c, ast.Compare) and len(c.ops) == 1 and isinstance(c.ops[0], (ast.Is, ast.IsNot)) \
+                    and isinstance(c.left, ast.Name) and ast.unparse(c.comparators[0]) == 'None' \
+                    and env.get(c.left.id) in ('optZ', 'Z', 'none'):
+                x, some, no = c.left.id, (s.body if isinstance(c.ops[0], ast.IsNot) else s.orelse), \
+                    (s.orelse if isinstance(c.ops[0], ast.IsNot) else s.body)
+                if env[x] == 'Z':                           # known not to be None on this path
+                    return self.block(some + rest, env, ctx, ind)
+                if env[x] == 'none':
+                    return self.block(no + rest, env, ctx, ind)
+                e0, e1 = dict(env), dict(env)
+                e0[x], e1[x] = 'none', 'Z'
+                return (f'{pad}match v_{x} with\n{pad}| None =>\n{self.block(no + rest, e0, ctx, ind + 1)}\n'
+                        f'{pad}| Some v_{x} =>\n{self.block(some + rest, e1, ctx, ind + 1)}\n{pad}end')
+            neg = isinstance(c, ast.UnaryOp) and isinstance(c.op, ast.Not)
+            call = self.selfcall(c.operand if neg else c, env)
+            if call:                                        # if self.m(..): / if not self.m(..):
+                if call[1] != 'bool':
+                    self.gap(s, f'a {call[1]} as a condition')
+                self.after_call(env)
+                b = self.fresh()
+                return (f'{pad}gbind {call[0]} (fun self {b} =>\n{pad}if {"negb " if neg else ""}{b} then\n'
+                        f'{self.block(s.body + rest, env, ctx, ind + 1)}\n{pad}else\n{self.block(s.orelse + rest, env, ctx, ind + 1)})')
+            if isinstance(c, ast.Name) and env.get(c.id) == 'zlist':       # if l: the list is not empty
+                return (f'{pad}if negb (zlen v_{c.id} =? 0%Z) then\n{self.block(s.body + rest, env, ctx, ind + 1)}\n{pad}else\n'
+                        f'{self.block(s.orelse + rest, env, ctx, ind + 1)}')
             pre = []
             t = self.typed(s.test, env, pre, 'bool')
             return self.wrap(pre, f'{pad}if {t} then\n{self.block(s.body + rest, env, ctx, ind + 1)}\n{pad}else\n'
@@ -443,9 +523,19 @@ class _Fn:
             x, xt = self.expr(v.args[0], env, pre)
             if (lt, xt) == ('waves', 'wave') and isinstance(f.value, ast.Name):
                 return self.wrap(pre, f'{pad}let {l} := {l} ++ [{x}] in\n{nxt()}', pad)
+            if (lt, xt) == ('zlist', 'Z') and isinstance(f.value, ast.Name):
+                return self.wrap(pre, f'{pad}let {l} := {l} ++ [{x}] in\n{nxt()}', pad)
             if (lt, xt) == ('infos', 'info') and _is_self(f.value):
                 return self.wrap(pre, f'{pad}let self := set_{self.field(f.value)[0]} self ({l} ++ [{x}]) in\n{nxt()}', pad)
             self.gap(s, f'append of a {xt} to a {lt}')
+        if isinstance(f, ast.Attribute) and f.attr == 'insert' and _is_self(f.value) and len(v.args) == 2 and not v.keywords \
+                and ast.unparse(v.args[0]) == '0':                                  # l.insert(0, x)
+            name, ty, rw = self.field(f.value)
+            pre = []
+            x = self.typed(v.args[1], env, pre, 'Z')
+            if ty != 'zlist' or not rw:
+                self.gap(s, f'insert into a {ty}')
+            return self.wrap(pre, f'{pad}let self := set_{name} self ({x} :: (f_{name} self)) in\n{nxt()}', pad)
         if isinstance(f, ast.Attribute) and f.attr == 'remove' and _is_self(f.value) and len(v.args) == 1 and not v.keywords:
             name, ty, rw = self.field(f.value)
             pre = []
@@ -539,10 +629,10 @@ class _Fn:
                             f'{pad}let self := set_{name} self (snd {r}) in\n{nxt()})')
             if isinstance(v, ast.List) and not v.elts:
                 ty = LOCAL_LISTS.get((self.name, x))
-                if ty != 'waves':
+                if ty not in ('waves', 'zlist'):
                     self.gap(s, 'an empty list of unknown content')
                 bind(x, ty)
-                return f'{pad}let v_{x} := (@nil (list osample)) in\n{nxt()}'
+                return f'{pad}let v_{x} := (@nil {"(list osample)" if ty == "waves" else "Z"}) in\n{nxt()}'
             pre = []
             t, ty = self.expr(v, env, pre)
             if ty not in ('Z', 'bool', 'wave', 'src', 'info', 'zlist'):
@@ -561,6 +651,22 @@ class _Fn:
             name, fty, rw = self.field(tgt)
             if not rw:
                 self.gap(s, 'assignment to a field that stands for a parameter of the policy')
+            if isinstance(v, ast.ListComp) and len(v.generators) == 1 and fty == 'infos':
+                g = v.generators[0]                         # [x for x in l if (not) self.m(x, ..)]
+                if isinstance(g.target, ast.Name) and ast.unparse(v.elt) == g.target.id and len(g.ifs) == 1 and not g.is_async:
+                    pre = []
+                    l = self.typed(g.iter, env, pre, 'infos')
+                    inner = dict(env)
+                    inner[g.target.id] = 'info'
+                    c = g.ifs[0]
+                    neg = isinstance(c, ast.UnaryOp) and isinstance(c.op, ast.Not)
+                    call = self.selfcall(c.operand if neg else c, inner)
+                    if call and call[1] == 'bool' and not pre:
+                        b, r = self.fresh(), self.fresh()
+                        k = f'gbind {call[0]} (fun self {b} => GOk self (negb {b}))' if neg else call[0]
+                        return (f'{pad}gbind (gfilter (fun self v_{g.target.id} => {k}) {l} self) (fun self {r} =>\n'
+                                f'{pad}let self := set_{name} self {r} in\n{nxt()})')
+                self.gap(s, 'unknown list comprehension')
             if isinstance(v, ast.Call) and isinstance(v.func, ast.Name) and v.func.id == '_tie_draw_perm' and len(v.args) == 1 \
                     and fty == 'zlist':
                 pre = []
@@ -587,7 +693,7 @@ class _Fn:
             if [(n, e.get(n)) for n, _ in params] != params:
                 self.gap(s, 'a variable of the loop changes its type')
             return '  ' * i + ' '.join([name, 'fuel', 'self'] + ['v_' + n for n, _ in params])
-        ictx = {'end': again, 'brk': lambda e, i: self.block(rest, e, ctx, i)}
+        ictx = {'end': again, 'cont': again, 'brk': lambda e, i: self.block(rest, e, ctx, i)}
         body = f'{pad}match fuel with\n{pad}| O => GRaise EFuel self\n{pad}| S fuel =>\n{self.block(s.body, inner, ictx, ind + 1)}\n{pad}end'
         if not (isinstance(s.test, ast.Constant) and s.test.value is True):
             pre = []
@@ -619,13 +725,16 @@ class _Fn:
     def for_stmt(self, s, rest, env, ctx, ind):
         pad = '  ' * ind
         one = s.body[0] if len(s.body) == 1 else None
-        if s.orelse or one is None:
+        if s.orelse:
             self.gap(s, 'unknown for statement')
         pre = []
         if ast.unparse(s.iter) == 'self._data.items()' and ast.unparse(s.target) == '(key, data)':
             x, xt, l = 'data', 'entry', '(f_data self)'        # the key is not bound: a use of it below is an unknown name
         elif isinstance(s.target, ast.Name):
-            x, xt, l = s.target.id, 'Z', self.typed(s.iter, env, pre, 'zlist')
+            l, lt = self.expr(s.iter, env, pre)
+            if lt not in ('zlist', 'infos'):
+                self.gap(s, f'iteration over a {lt}')
+            x, xt = s.target.id, ('Z' if lt == 'zlist' else 'info')
         else:
             self.gap(s, 'unknown for target')
         inner = {k: v for k, v in env.items() if k != 'key' or x != 'data'}
@@ -648,7 +757,35 @@ class _Fn:
                 self.after_call(after)
                 return self.wrap(pre, f'{pad}gbind (gfold (fun self v_{x} => {c[0]}) {l} self) (fun self _ =>\n'
                                       f'{self.block(rest, after, ctx, ind)})', pad)
-        self.gap(s, 'unknown for body')
+        # any other body: statements that change the object and at most one local (the accumulator); no return / break
+        carried = set()
+        for node in [n for st in s.body for n in ast.walk(st)]:
+            if isinstance(node, (ast.Return, ast.Break, ast.While, ast.For, ast.Try)):
+                self.gap(s, 'return / break / nested loop in the body of a for loop')
+            if isinstance(node, (ast.Assign, ast.AugAssign)):
+                for tg in (node.targets if isinstance(node, ast.Assign) else [node.target]):
+                    if isinstance(tg, ast.Name):
+                        carried.add(tg.id)
+            if isinstance(node, ast.Call) and isinstance(node.func, ast.Attribute) and node.func.attr in ('append', 'insert', 'remove', 'pop') \
+                    and isinstance(node.func.value, ast.Name):
+                carried.add(node.func.value.id)
+        carried = sorted(c for c in carried if c in env and c != x)
+        if len(carried) > 1 or pre:
+            self.gap(s, 'a for loop that changes more than one local')
+        acc = carried[0] if carried else None
+        inner['@src'] = 'unknown'
+
+        def done(e, i):
+            if acc and e.get(acc) != env[acc]:
+                self.gap(s, 'the accumulator of the loop changes its type')
+            return '  ' * i + (f'GOk self v_{acc}' if acc else 'GOk self tt')
+        body = self.block(list(s.body), inner, {'end': done, 'cont': done, 'brk': None}, ind + 1)
+        self.after_call(after)
+        if acc:
+            return (f'{pad}gbind (gfoldl (fun self v_{acc} v_{x} =>\n{body}) {l} self v_{acc}) (fun self v_{acc} =>\n'
+                    f'{self.block(rest, after, ctx, ind)})')
+        return (f'{pad}gbind (gfoldl (fun self (_ : unit) v_{x} =>\n{body}) {l} self tt) (fun self _ =>\n'
+                f'{self.block(rest, after, ctx, ind)})')
 
     def translate(self, fn):
         if ast.unparse(fn.args) != self.sig:
@@ -754,14 +891,16 @@ def translate_source(src):
              (ROOT, 'decrement_key'), ('InterleavedFIFOSignalQueue', 'decrement_key'), ('GroupedFIFOSignalQueue', 'decrement_key'),
              'decrement_key', ('FIFOSignalQueue', 'next_key'), ('InterleavedFIFOSignalQueue', 'next_key'),
              ('RandomSignalQueue', 'next_key'), ('BlockedRandomSignalQueue', 'next_key'), ('GroupedFIFOSignalQueue', 'next_key'),
-             'next_key', (ROOT, 'pop_key'), (ROOT, 'pop_next'), (ROOT, 'next_trial'), (ROOT, '_pop_buffer'), (ROOT, 'pop_buffer')]
+             'next_key', (ROOT, 'pop_key'), (ROOT, 'pop_next'), (ROOT, 'next_trial'), (ROOT, '_pop_buffer'), (ROOT, 'pop_buffer'),
+             (ROOT, '_ends_after'), (ROOT, 'rewind_samples'), (ROOT, 'cancel'), (ROOT, 'requeue'),
+             ('InterleavedFIFOSignalQueue', 'requeue'), 'requeue', (ROOT, 'pause'), (ROOT, 'resume')]
     assert set(order) == set(TARGETS) | set(VIRTUAL)
     text = '\n'.join(disp[k] if isinstance(k, str) else defs[k] for k in order)
     return text, {'functions': [('g_' + k) if isinstance(k, str) else coqname(*k) for k in order], 'pins': len(PINS),
                   'pinned_defs': [k if isinstance(k, str) else '.'.join(k) for k in PINNED_DEFS]}
 
 
-HEADER = '''From PV Require Import Common.PySlice Queue.Model Queue.TieLib.
+HEADER = '''From PV Require Import Common.PySlice Queue.Model Queue.TieLib Queue.TieLibC04.
 Local Open Scope Z_scope.
 
 '''
